@@ -1001,6 +1001,8 @@ func exhaustiveC07(r *corr.Run, m *modelSession) {
 }
 
 func runC08(r *corr.Run, m *modelSession, only bool) {
+	// (0) size thresholds: an incrementally built large index against the one-call index
+	runSizesC08(r)
 	// larger histories, oracle only
 	m.pause()
 	for k := 0; r.TimeLeft() && k < r.Pick(6, 150); k++ {
